@@ -53,7 +53,10 @@ fn provide_context_in_node<T: 'static>(id: NodeId, value: T) {
     let mut nodes = root.nodes.borrow_mut();
     let any: Box<dyn Any> = Box::new(value);
 
-    let node = &mut nodes[id];
+    // Nothing to do if the scope has already been disposed.
+    let Some(node) = nodes.get_mut(id) else {
+        return;
+    };
     if node
         .context
         .iter()
@@ -73,7 +76,8 @@ pub fn try_use_context<T: Clone + 'static>() -> Option<T> {
     let root = Root::global();
     let nodes = root.nodes.borrow();
     // Walk up the scope stack until we find one with the context of the right type.
-    let mut current = Some(&nodes[root.current_node.get()]);
+    // A scope that has already been disposed provides nothing.
+    let mut current = nodes.get(root.current_node.get());
     while let Some(next) = current {
         for value in &next.context {
             if let Some(value) = value.downcast_ref::<T>().cloned() {
